@@ -480,7 +480,7 @@ def T_subsume(ctx, lib):
                         recv, arg = deep_strip(x[2][0]), deep_strip(x[2][1])
                         ok = recv == OLD and symx.contains(arg, lambda n_: n_ == NEW)
                 ctx.ob(rule, "skip-only-if-stored-subsumes-new", ok, where=c.where(), expected="any(|old| old.is_violating(new))", found=[show(p.ret)[:160] for p in paths])
-    ctx.floor(rule, "retain closures", n_ret, 1)
+    # (no floor on retain closures: not removing subsumed supersets only keeps the store larger - the excluded set is the same)
     ctx.floor(rule, "subsumption-skip closures", n_any, 1)
     # structure of the decision in add_ng itself (modes): summarise with closures opaque
     eng2 = ctx.engine([lib], no_inline={"adf_bdd::nogoods::NoGood::is_violating", "adf_bdd::nogoods::NoGood::len"})
@@ -500,6 +500,25 @@ def T_subsume(ctx, lib):
                 modes.setdefault("empty", []).append(p)
             continue
         modes.setdefault(int_of(mode), []).append((p, pushes))
+    # the empty nogood (the statement-less ADF produces it) is ignored without touching the store: every path that computes the bucket len-1 or indexes the store
+    # carries len > 0 in its path condition (canonical forms of `idx > 0`, `idx >= 1`, `idx != 0`, `!is_empty()`); `idx >= 0` on usize guards nothing
+    n_g = 0
+    for p in paths:
+        uses = [e for e in p.effects if e.get("kind") in ("index", "index_mut") or (e.get("kind") == "call" and flow.last(e["resolved"]) in ("push", "contains", "index", "index_mut"))]
+        if not uses and not any(symx.contains(deep_strip(e), lambda n_: n_[0] == "lin" or (n_[0] == "app" and n_[1] in ("Sub", "SubWithOverflow"))) for e, v in p.cond):
+            continue
+        n_g += 1
+        guarded = False
+        for e, v in p.cond:
+            e = deep_strip(e)
+            if e[0] == "app" and len(e[2]) == 2 and is_call(deep_strip(e[2][0]), "NoGood::len") and deep_strip(e[2][1]) == vint(0):
+                t = int_of(v) == 1
+                if (e[1] == "Gt" and t) or (e[1] == "Ne" and t) or (e[1] == "Eq" and not t) or (e[1] == "Le" and not t):
+                    guarded = True
+            if is_call(e, "NoGood::is_empty") and int_of(v) == 0:
+                guarded = True
+        ctx.ob(rule, "empty-nogood-ignored", guarded, where=b.where(), expected="store access only under len > 0", found=p.describe()[:200])
+    ctx.floor(rule, "paths that access the store", n_g, 1)
     # DuplicateElemination: None=0, Equiv=1, Subsume=2
     for m, name in ((0, "None"), (1, "Equiv"), (2, "Subsume")):
         entries = modes.get(m, [])
